@@ -1,5 +1,6 @@
 """C13 -- masks: analytic shapes and voxel-wise set algebra"""
 from .common import *
+from . import C11 as _c11
 from . import C12 as _c12
 from .maskmodel import *
 
@@ -388,6 +389,7 @@ def o135(ctx):
 
 def _obligations():
     return [
+        Obligation("O13.9", "map files given by path are read as written and masks are written as computed (shared with C11)", lambda ctx: (_c11.o111(ctx), _c11.o115(ctx)), floor=37),
         Obligation("O13.6", "get_correct_format returns 3-vectors as given (per axis) and box//2 by default; Gaussian edge options", o136, floor=9),
         Obligation("O13.8", "preprocess_params: radius unchanged unless the blur goes outwards (then ceil(r + 5 sigma)), for every r / sigma", o138, floor=4),
         Obligation("O13.7", "soft edges: the Gaussian runs with the requested sigma, 4-sigma support and the default border handling (shared with C12)",
